@@ -90,13 +90,17 @@ impl fmt::Debug for Response {
 }
 
 /// A cache for field names used in responses.
+///
+/// Also holds the state of a response that was only partially received when a
+/// [`ResponseBuilder`] was dropped (e.g. because the `receive` future was cancelled), so the next
+/// builder can pick it up again.
 #[derive(Clone, Debug)]
-pub(crate) struct ResponseFieldCache(HashSet<Arc<str>, ahash::RandomState>);
+pub(crate) struct ResponseFieldCache(HashSet<Arc<str>, ahash::RandomState>, ResponseState);
 
 impl ResponseFieldCache {
     /// Returns a new, empty cache.
     pub(crate) fn new() -> ResponseFieldCache {
-        ResponseFieldCache(HashSet::default())
+        ResponseFieldCache(HashSet::default(), ResponseState::Initial)
     }
 
     /// Insert a field name into the cache or retrieve a reference to an already existing entry.
@@ -131,10 +135,9 @@ enum ResponseState {
 
 impl<'a> ResponseBuilder<'a> {
     pub(crate) fn new(field_cache: &'a mut ResponseFieldCache) -> Self {
-        Self {
-            field_cache,
-            state: ResponseState::Initial,
-        }
+        // Resume a response left unfinished by a previous builder
+        let state = mem::replace(&mut field_cache.1, ResponseState::Initial);
+        Self { field_cache, state }
     }
 
     pub(crate) fn parse(
@@ -252,6 +255,13 @@ impl<'a> ResponseBuilder<'a> {
                 error: Some(error),
             },
         }
+    }
+}
+
+impl Drop for ResponseBuilder<'_> {
+    fn drop(&mut self) {
+        // Keep an unfinished response for the next builder
+        self.field_cache.1 = mem::replace(&mut self.state, ResponseState::Initial);
     }
 }
 
